@@ -558,14 +558,29 @@ def external_replacement_level(ctx):
     from common import parse_multistatus
     rng = ctx.rng("external")
     kinds = ["new-mtime-same-size", "new-mtime-other-size", "kept-mtime-other-size", "older-mtime-other-size", "one-ns-later-same-size"]
-    for mode_stat, item_sub, kind in itertools.product([False, True], [False, True], kinds):
-        with App({"storage": {"use_mtime_and_size_for_item_cache": str(mode_stat), "use_cache_subfolder_for_item": str(item_sub)},
-                  "auth": {"type": "none"}}) as app:
-            login = "u:pw"
-            app.request("MKCALENDAR", "/u/c/", login=login)
-            v = rng.randint(1, 3)
-            st, hd, _ = app.request("PUT", "/u/c/a.ics", ev("a", v), login=login)
-            st1, hd1, body1 = app.request("GET", "/u/c/a.ics", login=login)
+    # content-hash keying promises more than the other mode: a replacement that keeps size AND time stamp (cp -p, rsync -t, a restore) is
+    # noticed too - also when the entry at hand was written while the server ran under mtime+size keying (restart in between)
+    combos = [(m, sub, k, False) for m, sub, k in itertools.product([False, True], [False, True], kinds)]
+    combos += [(False, sub, "kept-mtime-same-size", other) for sub in (False, True) for other in (False, True)]
+    combos += [(False, sub, k, True) for sub in (False, True) for k in ("new-mtime-same-size", "kept-mtime-other-size")]
+    for mode_stat, item_sub, kind, stored_under_other in combos:
+        def conf_for(ms):
+            return {"storage": {"use_mtime_and_size_for_item_cache": str(ms), "use_cache_subfolder_for_item": str(item_sub)}, "auth": {"type": "none"}}
+        folder = None
+        v = rng.randint(1, 3)
+        login = "u:pw"
+        if stored_under_other:
+            first = App(conf_for(not mode_stat), keep=True)
+            first.request("MKCALENDAR", "/u/c/", login=login)
+            first.request("PUT", "/u/c/a.ics", ev("a", v), login=login)
+            etag_first = first.request("GET", "/u/c/a.ics", login=login)[1].get("ETag")
+            folder = first.folder
+            first.close()
+        with App(conf_for(mode_stat), folder=folder) as app:
+            if not stored_under_other:
+                app.request("MKCALENDAR", "/u/c/", login=login)
+                st, hd, _ = app.request("PUT", "/u/c/a.ics", ev("a", v), login=login)
+            st1, hd1, body1 = app.request("GET", "/u/c/a.ics", login=login) if not stored_under_other else (200, {"ETag": etag_first}, "")
             etag1 = hd1.get("ETag")
             fp = os.path.join(app.folder, "collection-root", "u", "c", "a.ics")
             s0 = os.stat(fp)
@@ -575,9 +590,10 @@ def external_replacement_level(ctx):
                 f.write(text.encode("utf-8"))
             t = {"new-mtime-same-size": s0.st_mtime_ns + 2_000_000_000, "new-mtime-other-size": s0.st_mtime_ns + 2_000_000_000,
                  "kept-mtime-other-size": s0.st_mtime_ns, "older-mtime-other-size": s0.st_mtime_ns - 5_000_000_000,
-                 "one-ns-later-same-size": s0.st_mtime_ns + 1}[kind]
+                 "one-ns-later-same-size": s0.st_mtime_ns + 1, "kept-mtime-same-size": s0.st_mtime_ns}[kind]
             os.utime(fp, ns=(t, t))
             case = {"keying": "mtime+size" if mode_stat else "hash", "item_cache_subfolder": item_sub, "replacement": kind,
+                    "entry_written_under_the_other_keying_before_a_restart": stored_under_other,
                     "size_before": s0.st_size, "size_after": os.stat(fp).st_size}
             want = "SUMMARY:v%d" % new_v
             how = rng.choice(["GET", "REPORT", "PROPFIND"])
@@ -597,7 +613,7 @@ def external_replacement_level(ctx):
                 etag2 = ms.get("D:getetag", (0, None))[1].text if isinstance(ms, dict) and "D:getetag" in ms else None
                 shown = None
             case.update(read=how, status=st2)
-            ctx.case("external:%s:%s:%s" % (case["keying"], kind, how), sample=case, key=["external", mode_stat, item_sub, kind], nontrivial=True)
+            ctx.case("external:%s:%s:%s" % (case["keying"], kind, how), sample=case, key=["external", mode_stat, item_sub, kind, stored_under_other], nontrivial=True)
             if st1 != 200 or st2 not in (200, 207):
                 ctx.violation("reading the replaced item answered %s" % st2, case)
                 continue
@@ -605,6 +621,8 @@ def external_replacement_level(ctx):
                 ctx.violation("an item file replaced by other means (%s) is served with its old content" % kind, case)
             if etag2 is None or etag2 == etag1:
                 ctx.violation("an item file replaced by other means (%s) keeps its old ETag" % kind, case)
+            if folder and not app.own_folder:
+                shutil.rmtree(folder, ignore_errors=True)
 
 
 class _CoarseStat:
